@@ -110,6 +110,12 @@ def capture_tool(sm=False):
 
 
 class BuildError(Exception):
+    """the instrumented build of /repo (capture tool, harness) fails"""
+    pass
+
+
+class CorpusRejected(Exception):
+    """a curated definition that the unchanged derive accepts is rejected"""
     pass
 
 
@@ -290,7 +296,7 @@ opt-level = 2
     # rejected definitions are dropped from the modules? No: they would not compile. Strip them.
     rejected = [en for en, (mod, c) in enums.items() if not c.accepted]
     if rejected:
-        raise RuntimeError('harness corpus contains rejected definitions: %s' % rejected)
+        raise CorpusRejected('the derive rejects valid definitions of the curated corpus: %s' % rejected)
     out = {}
     import concurrent.futures as cf
 
